@@ -4,10 +4,12 @@
 
 use ::std::fmt;
 
-#[cfg(not(feature = "cap16"))]
+#[cfg(all(not(feature = "cap16"), not(feature = "cap4")))]
 pub const CAP: usize = 8;
 #[cfg(feature = "cap16")]
 pub const CAP: usize = 16;
+#[cfg(all(feature = "cap4", not(feature = "cap16")))]
+pub const CAP: usize = 4;
 
 pub struct VecDeque<T> {
     items: [Option<T>; CAP],
